@@ -12,7 +12,7 @@
 (* (weights after Restore/Recover equal the snapshot), Finite, Raised.                                 *)
 (* Conformance clauses (-> DRIFT): the premises of the composition theorem checked by ComposeMC -      *)
 (* layer contracts on the real weights, Sufficient(wiring) - and model(x) = ModelFn(wiring, W)(x).     *)
-EXTENDS Compose, TraceBase
+EXTENDS ComposeFx, TraceBase
 VARIABLES l, st
 tvars == <<l, st>>
 
@@ -42,6 +42,16 @@ AxesOK(m, e) == \A f \in 1..Len(e.axes) : LET v == e.axes[f].vals IN
                   IF m.feats[f].kind = "pwl" THEN \A i \in 1..(Len(v) - 1) : v[i] < v[i + 1]
                   ELSE \A i \in 1..Len(v) : v[i] = i - 1
 
+\* ---- conformance: model(x) = ModelFn(wiring, W)(x) on the sampled grid points e.cpts -----------------
+PointAt(m, e, n) ==
+  [f \in 1..Len(e.axes) |->
+     LET i == ((n - 1) \div Stride(e, f)) % AxLen(e, f)  nv == Len(e.axes[f].vals) IN
+     IF i >= nv THEN [m |-> TRUE, q |-> 0]
+     ELSE [m |-> FALSE, q |-> IF m.feats[f].kind = "pwl" THEN e.axes[f].vals[i + 1] * (Q1 \div e.xden) ELSE e.axes[f].vals[i + 1]]]
+ConfBad(m, e) == e.conf /\ \E k \in 1..Len(e.cpts) :
+                   LET n == e.cpts[k]  v == ModelQ(m, e, PointAt(m, e, n))  o == ToQ(e.outs[n], e.oden)
+                   IN v - o > e.ctol \/ o - v > e.ctol
+
 \* ---- premises ------------------------------------------------------------------------------------
 CalDrift(m, e) == \E f \in 1..NF(m) : \E u \in 1..Len(e.W.cal[f]) :
                     \/ ~NeededOK(m.cals[f], VecQ(e.W.cal[f][u]), TolQ(e.W.cal[f][u]))
@@ -61,6 +71,7 @@ ObsClauses(m, e, snap) ==
   \cup (IF MidDrift(m, e) THEN {"DRIFT-LayerContract-middle"} ELSE {})
   \cup (IF CombDrift(m, e) THEN {"DRIFT-LayerContract-combination"} ELSE {})
   \cup (IF OcDrift(m, e) THEN {"DRIFT-LayerContract-output-calibrator"} ELSE {})
+  \cup (IF ConfBad(m, e) THEN {"DRIFT-ModelFn"} ELSE {})
   \cup (IF Has(e, "m2") /\ e.m2 # m THEN {"DRIFT-RecoveredWiringDiffers"} ELSE {})
 
 TraceInit == l = 1 /\ st = [tr |-> -1, m |-> NoSnap, snap |-> NoSnap]
